@@ -116,10 +116,11 @@ Hypothesis R_un : forall k a a', R a a' -> R (unf C k a) (unf C k a').
 Variable flagged : nat -> Prop.
 Hypothesis flagged_assoc : forall k, flagged k -> forall a b c, R (binf C k (binf C k a b) c) (binf C k a (binf C k b c)).
 Variable vals : list D.
+Variable okvars : list str -> Prop.
 Local Notation dden := (dden C vals).
 Local Notation nden := (nden C vals).
-Local Notation dwf := (dwf flagged vals).
-Local Notation nwf := (nwf flagged vals).
+Local Notation dwf := (dwf flagged vals okvars).
+Local Notation nwf := (nwf flagged vals okvars).
 
 Lemma nval_dec orig f : nun f = [] -> nval C (map nden orig) f = nden (dec orig f).
 Proof.
